@@ -163,6 +163,11 @@ func (mem *Mempool) Update(height int64, txs []types.Tx) {
 	// Set height
 	atomic.StoreInt64(&mem.height, height)
 
+	// Remember the committed txs, so that a late copy of one of them is not accepted (and proposed) again.
+	for _, tx := range txs {
+		mem.cache.Push(tx)
+	}
+
 	mem.Lock()
 	// Remove transactions that are already in txs, also re-run txs through filters
 	mem.refreshMempoolTxs(txsMap)
@@ -194,9 +199,9 @@ func (mem *Mempool) refreshMempoolTxs(blockTxsMap map[string]struct{}) {
 		memTx := e.Value.(*types.TxInPool)
 		// Remove the tx if it's alredy in a block, or rechecking fails
 		if _, ok := blockTxsMap[string(memTx.Tx)]; ok {
+			// committed: leaves the list but stays in the cache
 			mem.txs.Remove(e)
 			e.DetachPrev()
-			mem.cache.Remove(memTx.Tx)
 		} else if err := mem.recheckTx(memTx.Tx); err != nil {
 			mem.txs.Remove(e)
 			e.DetachPrev()
